@@ -1375,6 +1375,7 @@ class Processor:
                     next_translated_path = translated_path + "[{}]".format(
                         lstidx)
                     next_ancestry = ancestry + [(data, lstidx)]
+                    matches = False
                     for desc_node in self._get_required_nodes(
                         ele, desc_path, 0,
                         translated_path=next_translated_path,
